@@ -54,6 +54,11 @@ func (rt *Transfer) deleteFiles(fileList []*File) error {
 				rt.Logger.Printf("  deleting %s failed: %v", path, err)
 				// keep going
 			}
+			if !info.IsDir() {
+				// fs.SkipDir for a non-directory would skip the remaining
+				// entries of the containing directory.
+				return nil
+			}
 			return fs.SkipDir // skip the just-deleted directory
 		})
 		if err != nil {
